@@ -171,6 +171,23 @@ def big_case2():
             "min": 2, "max": 2, "refs": refs, "logs": [], "seekrefs": [], "seeklogs": [], "oids": [], "universe": [], "layout": False, "big": True}
 
 
+def incompressible_cases(seed):
+    """log blocks that deflate to MORE bytes than they hold (distinct random hashes, random message bytes, small blocks):
+    the header of a log block gives the inflated size only, a reader must fetch enough for the deflated form"""
+    out = []
+    for k, (hs, hname, bs, n) in enumerate([(20, "sha1", 192, 4), (20, "sha1", 256, 9), (32, "s256", 256, 5), (32, "s256", 512, 14), (20, "sha1", 0, 40)]):
+        rng = random.Random(seed * 131 + k)
+        hx = lambda: "".join(rng.choice("0123456789abcdef") for _ in range(2 * hs))
+        logs = [{"n": "refs/heads/%s" % "".join(rng.choice("abcdefghijklmnopqrstuvwxyz0123456789") for _ in range(6)), "i": 5 + rng.randint(0, 20000), "del": False,
+                 "old": hx(), "new": hx(), "user": "".join(rng.choice("abcdefghijklmnopqrstuvwxyz") for _ in range(3)), "email": "", "time": rng.randint(1, 1 << 31),
+                 "tz": rng.randint(-700, 700), "msg": "".join(rng.choice("qwertyuiopasdfghjklzxcvbnm1234567890") for _ in range(rng.randint(0, 6)))} for _ in range(n)]
+        logs.sort(key=lambda l: (l["n"], -l["i"]))
+        out.append({"id": "incompressible-%d" % k, "blocksize": bs, "restart": 16, "unaligned": bool(k % 2), "skipindex": True, "hash": hname, "exact": True,
+                    "min": 5, "max": 20100, "refs": [], "logs": logs, "seekrefs": [""], "seeklogs": [{"n": l["n"], "i": l["i"]} for l in logs[:6]] + [{"n": "", "i": 0}],
+                    "oids": [], "universe": [], "layout": True})
+    return out
+
+
 def signature(check, trace, line):
     if trace["id"] == "kf-objidlen32":
         return KF_OBJID
@@ -220,6 +237,8 @@ def run(pid, tier, merge=False):
         cases += tablemc.shape_cases(pid, tier, sc, seed)
         if pid in ("C11", "C14"):
             cases.append(kf_case())
+        if pid in ("C01", "C02", "C14"):
+            cases += incompressible_cases(seed)
         if pid in ("C01", "C14"):
             cases.append(big_case())
             cases.append(big_case2())
